@@ -232,6 +232,9 @@ async fn run_case(out: &mut Out, w: &mut World, c: &Cand) {
         if added.len() != expect_added || added.iter().any(|r| r.id != c.op.hash.as_bytes().to_vec()) {
             out.oracle_fail(n, "unexpected-rows", &format!("{} rows appeared", added.len()), &req, &ans);
         }
+        if c.forged && !deleted.is_empty() {
+            out.oracle_fail(n, "forged-prune-deleted-rows", &format!("a forged event completed ({ing}) and {} stored rows of the claimed author disappeared (kind: {})", deleted.len(), c.kind), &req, &ans);
+        }
         if c.forged {
             out.oracle_fail(n, "forged-event-completed", &format!("a forged event completed ({})", c.kind), &req, &ans);
         }
@@ -294,6 +297,35 @@ fn candidates(rng: &mut Rng, keys: &[SigningKey], w: &World) -> Vec<Cand> {
             }
         }
     }
+    // forged / mutated operations ANNOUNCED UNDER A STORED ID (`Operation.hash` is never compared
+    // with the header hash): the id of the head of the victim's log, of a non-head entry, and of
+    // another author's entry; attacker-signed claiming the victim, seq below / at / above the head
+    let stored: Vec<&Op> = w.genuine.iter().filter(|g| g.header.verifying_key == vk && log_of_op(g) == vlog).collect();
+    let mut id_pool: Vec<(Hash, &'static str)> = vec![(tip.hash, "head-id")];
+    if let Some(g) = stored.iter().find(|g| g.hash != tip.hash) {
+        id_pool.push((g.hash, "non-head-id"));
+    }
+    if let Some(g) = w.genuine.iter().find(|g| g.header.verifying_key != vk) {
+        id_pool.push((g.hash, "other-author-id"));
+    }
+    for (id, what) in &id_pool {
+        for &seq in &[height.saturating_sub(1), height, height + 1, height + 7] {
+            for flag in [true, false] {
+                if !flag && seq != height {
+                    continue;
+                }
+                let bl = if seq == 0 { None } else { Some(tip.header.hash()) };
+                let mut op = mk_op(rng, attacker, &vk, vlog, seq, bl, flag);
+                op.hash = *id;
+                out.push(Cand { op, log: vlog, topic: 10 + vlog, flag, kind: format!("forged under stored {what} flag={} seq-vs-height={}", tf(flag), rel(seq, height)), forged: true });
+            }
+        }
+        // the genuine head header with the flag toggled (signature no longer matches), under the stored id
+        let mut h = tip.header.clone();
+        h.extensions.flag = !tip.header.extensions.flag;
+        let nf = h.extensions.flag;
+        out.push(Cand { op: Operation { hash: *id, header: h, body: tip.body.clone() }, log: vlog, topic: 10 + vlog, flag: nf, kind: format!("mutated flag toggled under stored {what}"), forged: true });
+    }
     // genuine victim operation with the prune flag switched on, not re-signed
     {
         let mut h = tip.header.clone();
@@ -347,6 +379,10 @@ fn candidates(rng: &mut Rng, keys: &[SigningKey], w: &World) -> Vec<Cand> {
     out
 }
 
+fn log_of_op(op: &Op) -> u64 {
+    op.header.extensions.custom_field
+}
+
 fn rel(seq: u32, height: u32) -> &'static str {
     if seq == u32::MAX {
         "u32::MAX"
@@ -388,7 +424,7 @@ fn main() {
         }
     });
     out.finish(
-        "per store: three victim authors with 1-2 logs of 2-6 operations filled through the real Pipeline; then, aimed at a random victim log: forged events (attacker-signed, claiming the victim's key) for every combination of prune flag on/off x seq 0 / below / at / above height / u32::MAX x victim's log / another log id; the victim's genuine tip with the flag switched on (not re-signed); a genuine duplicate with the caller setting the flag; a flagged continuation with a flipped signature bit; the attacker's own valid operations under the same log id; the victim's valid continuation and valid prune operations (height+1, far ahead, below height). After each event all logs of all authors are read back. non-trivial = forged and flagged and aimed at a non-empty foreign log prefix",
+        "per store: three victim authors with 1-2 logs of 2-6 operations filled through the real Pipeline; then, aimed at a random victim log: forged events (attacker-signed, claiming the victim's key) for every combination of prune flag on/off x seq 0 / below / at / above height / u32::MAX x victim's log / another log id; the victim's genuine tip with the flag switched on (not re-signed); forged and flag-toggled operations announced under a stored id (head id, non-head id, another author's id; seq below / at / above the head); a genuine duplicate with the caller setting the flag; a flagged continuation with a flipped signature bit; the attacker's own valid operations under the same log id; the victim's valid continuation and valid prune operations (height+1, far ahead, below height). After each event all logs of all authors are read back. non-trivial = forged and flagged and aimed at a non-empty foreign log prefix",
         false,
     );
 }
